@@ -4,7 +4,13 @@
     CrossBlock / MultiCrossBlock / Repeat / Merge / Nest hand to
     MultiCrossBlockRepeat._create as a function of the attributes they read from
     their argument blocks ([binfo]).  [_create] reads nothing else, so equal
-    arguments give equal blocks.  harness/props/c24.py checks on every run that
+    arguments give equal blocks.  A constraint handed to [_create] either carries no
+    [within_block] geometry yet (a user's object; [_create] initialises its private copy with
+    the new block's geometry, the object itself stays as it is) or carries the geometry of the
+    block it comes from ([orig_constraints] of an argument block): for Repeat(b, []) = b and
+    Merge([b]) = b the arguments of the two sides differ in exactly that respect
+    (C24_repeat_nil_created, C24_merge_singleton_created) while the resulting blocks agree
+    (C24_repeat_nil_flat, C24_merge_singleton_flat).  harness/props/c24.py checks on every run that
     the real constructors pass literally what the model says, that the two sides
     of each documented equivalence pass equal arguments wherever the side
     conditions below hold on the real blocks, and that the exhausted solution
@@ -101,7 +107,8 @@ Proof. exact single_crossing_weight_one. Qed.
 Print Assumptions C24_cross_leaf_weight.
 
 (** Repeat(block, []): the block's own (original) design, crossings, sustain counts, final
-    weights and constraints, in REPEAT mode (which keeps the weights) and EQUAL_PREAMBLE. *)
+    weights and constraints ([ocs]: its [orig_constraints], see C24_repeat_nil_created), in REPEAT
+    mode (which keeps the weights) and EQUAL_PREAMBLE. *)
 Theorem C24_repeat_nil :
   forall a ocs T P ws,
     exists r, create_of (BRepeat (binfo_of_create true a ocs T P ws) []) = COk r /\
@@ -124,7 +131,63 @@ Theorem C24_merge_singleton :
 Proof. exact merge_singleton_of_create. Qed.
 Print Assumptions C24_merge_singleton.
 
-(** What the two previous theorems leave open is closed by the trial arithmetic:
+(** Which constraints those are.  [_create] works on private copies of the constraint objects it is
+    handed (/repo commit 88b3d0f: the objects themselves are never changed, a user's object keeps
+    [within_block] = None for ever) and records the new block's geometry [g] = [get_geometry(0)] in
+    every copy that carries none yet ([init_within_block]; [created_constraints g a] = the block's
+    [orig_constraints]).  So the constraints that Repeat(block, []) / Merge([block]) hand on are the
+    ones the block was handed itself, except that an entry without geometry now carries the block's;
+    an entry that carried a geometry (even a different one) is handed on unchanged.  The blocks built
+    from them have the same [orig_constraints] as the block, whatever their own geometry [g'] is.
+    c24.py: layer L1-created ([created_constraints] vs the real [orig_constraints] of every block) and
+    L1-equiv-repeat-nil / -merge-single (the recorded arguments of the two sides, constraints related
+    by [init_within_block] with the real block's geometry). *)
+Theorem C24_init_within_block :
+  forall g c,
+    c_id (init_within_block g c) = c_id c /\ c_kind (init_within_block g c) = c_kind c /\
+    c_param (init_within_block g c) = c_param c /\
+    c_wb (init_within_block g c) =
+      match c_wb c with
+      | Some h => Some h
+      | None => if has_within_block (c_kind c) then Some g else None
+      end.
+Proof. exact init_within_block_spec. Qed.
+Print Assumptions C24_init_within_block.
+
+Theorem C24_repeat_nil_created :
+  forall a g T P ws,
+    exists r, create_of (BRepeat (block_of_create true a g T P ws) []) = COk r /\
+      ca_design r = ca_design a /\ ca_crossings r = norm_crossings a /\ norm_crossings r = norm_crossings a /\
+      ca_sustains r = ca_sustains a /\ ca_rcc r = ca_rcc a /\
+      map snd (ca_constraints r) = map (init_within_block g) (map snd (ca_constraints a)) /\
+      ca_weights r = ws /\ ca_mode r = MRepeat /\ ca_alignment r = EqualPreamble /\
+      forall g', created_constraints g' r = created_constraints g a.
+Proof. exact repeat_nil_of_created. Qed.
+Print Assumptions C24_repeat_nil_created.
+
+Theorem C24_merge_singleton_created :
+  forall a g T P ws mode,
+    NoDup (ca_design a) ->
+    exists m, create_of (BMerge [block_of_create true a g T P ws] [] mode None) = COk m /\
+      ca_design m = ca_design a /\ ca_crossings m = norm_crossings a /\
+      ca_sustains m = firstn (length (norm_crossings a)) (ca_sustains a) /\ ca_rcc m = ca_rcc a /\
+      map snd (ca_constraints m) = map (init_within_block g) (map snd (ca_constraints a)) /\
+      ca_weights m = firstn (length (norm_crossings a)) ws /\ ca_mode m = mode /\ ca_alignment m = ca_alignment a /\
+      forall g', created_constraints g' m = created_constraints g a.
+Proof. exact merge_singleton_of_created. Qed.
+Print Assumptions C24_merge_singleton_created.
+
+(** a user's Pin(-1) and MinimumTrials(3) given to a CrossBlock of 4 trials: the block is handed the
+    objects without geometry; Repeat(block, []) hands on the block's copies, the Pin with the
+    geometry of the 4 trials *)
+Example C24_example_pin_repeat :
+  ca_constraints (create_cross [0; 1] [0; 1] [ex_pin; ex_mint] true) = [(OOwn, ex_pin); (OOwn, ex_mint)] /\
+  exists r, create_of (BRepeat ex_pin_block []) = COk r /\
+    ca_constraints r = [(OBlock 0, {| c_id := 0; c_kind := KPin; c_param := (-1)%Z; c_wb := Some ex_geometry |});
+                        (OBlock 0, ex_mint)].
+Proof. exact ex_pin_repeat. Qed.
+
+(** What C24_repeat_nil / C24_merge_singleton leave open is closed by the trial arithmetic:
     REPEAT mode keeps the weights it is given, and trial count, preambles and
     min_trials do not depend on which of PARALLEL_START / EQUAL_PREAMBLE is recorded.
     (For a POST_PREAMBLE block Repeat(block, []) is a different block: c24.py finding
